@@ -1699,3 +1699,154 @@ func (o *orgCtx) transparentOrg(x *ssa.Call, idx int) (string, bool) {
 	}
 	return (&orgCtx{seen: map[ssa.Value]bool{}, depth: o.depth, subst: sub, substField: subF}).org(vals[idx]), true
 }
+
+// equalityCalls lists the calls in f that compare two values for deep equality: reflect.DeepEqual, maps.Equal, or a
+// module function that is recognised as an equality predicate on two maps (isMapEqualityPredicate).
+func (c *Ctx) equalityCalls(f *ssa.Function) []ssa.CallInstruction {
+	var out []ssa.CallInstruction
+	for _, call := range allCalls(f) {
+		switch genericBase(calleeName(call)) {
+		case "reflect.DeepEqual", "maps.Equal":
+			out = append(out, call)
+			continue
+		}
+		if g := call.Common().StaticCallee(); g != nil && c.isMapEqualityPredicate(g) {
+			out = append(out, call)
+		}
+	}
+	return out
+}
+
+var mapEqMemo = map[*ssa.Function]bool{}
+
+// isMapEqualityPredicate: g(a, b M) bool with M a map type, shaped as
+//
+//	if len(a) != len(b) { return false }
+//	for k, v := range a { if w, ok := b[k]; !ok || w != v { return false } }
+//	return true
+//
+// Checked: the length test with its false return; one range over one parameter; a comma-ok lookup of the range key in
+// the other; a comparison of the looked-up value with the range value; every edge that leaves the loop other than by
+// exhaustion runs into `return false`; `return true` is reached from exhaustion only.
+func (c *Ctx) isMapEqualityPredicate(g *ssa.Function) bool {
+	if v, ok := mapEqMemo[g]; ok {
+		return v
+	}
+	res := c.mapEqualityShape(g)
+	mapEqMemo[g] = res
+	return res
+}
+
+func (c *Ctx) mapEqualityShape(g *ssa.Function) bool {
+	if g == nil || g.Blocks == nil || len(g.Params) != 2 || g.Signature.Results().Len() != 1 || g.Pkg == nil || !strings.HasPrefix(g.Pkg.Pkg.Path(), modPath) {
+		return false
+	}
+	if bt, ok := g.Signature.Results().At(0).Type().Underlying().(*types.Basic); !ok || bt.Kind() != types.Bool {
+		return false
+	}
+	p0, p1 := g.Params[0], g.Params[1]
+	if _, ok := p0.Type().Underlying().(*types.Map); !ok || !types.Identical(p0.Type(), p1.Type()) {
+		return false
+	}
+	retConst := func(from, to *ssa.BasicBlock) (bool, bool) {
+		r, path := followJumps(from, to)
+		if r == nil || len(r.Results) != 1 {
+			return false, false
+		}
+		k, ok := phiAlong(r.Results[0], path).(*ssa.Const)
+		if !ok || k.Value == nil || k.Value.Kind() != constant.Bool {
+			return false, false
+		}
+		return constant.BoolVal(k.Value), true
+	}
+	// (a) length test
+	okLen := false
+	isLenOf := func(v ssa.Value, p *ssa.Parameter) bool {
+		k, ok := v.(*ssa.Call)
+		return ok && calleeName(k) == "builtin:len" && k.Call.Args[0] == ssa.Value(p)
+	}
+	for _, b := range g.Blocks {
+		for _, in := range b.Instrs {
+			bo, ok := in.(*ssa.BinOp)
+			if !ok || (bo.Op != token.NEQ && bo.Op != token.EQL) {
+				continue
+			}
+			if !(isLenOf(bo.X, p0) && isLenOf(bo.Y, p1) || isLenOf(bo.X, p1) && isLenOf(bo.Y, p0)) {
+				continue
+			}
+			for _, cu := range condUsers(bo, false) {
+				differ := branchTaken(cu, bo.Op == token.NEQ)
+				if v, ok := retConst(cu.If.Block(), differ); ok && !v {
+					okLen = true
+				}
+			}
+		}
+	}
+	if !okLen {
+		return false
+	}
+	// (b) one range over a parameter, lookup in the other, value comparison
+	mls := mapLoops(g)
+	if len(mls) != 1 {
+		return false
+	}
+	ml := mls[0]
+	var other *ssa.Parameter
+	switch ml.rng.X {
+	case ssa.Value(p0):
+		other = p1
+	case ssa.Value(p1):
+		other = p0
+	default:
+		return false
+	}
+	okLookup, okCmp := false, false
+	for b := range ml.body {
+		for _, in := range b.Instrs {
+			switch x := in.(type) {
+			case *ssa.Lookup:
+				if x.X == ssa.Value(other) && x.Index == ml.key && x.CommaOk {
+					okLookup = true
+				}
+			case *ssa.BinOp:
+				if x.Op != token.NEQ && x.Op != token.EQL {
+					continue
+				}
+				isLooked := func(v ssa.Value) bool {
+					ex, ok := v.(*ssa.Extract)
+					if !ok || ex.Index != 0 {
+						return false
+					}
+					lk, ok := ex.Tuple.(*ssa.Lookup)
+					return ok && lk.X == ssa.Value(other) && lk.Index == ml.key
+				}
+				if (isLooked(x.X) && x.Y == ml.val) || (isLooked(x.Y) && x.X == ml.val) {
+					okCmp = true
+				}
+			}
+		}
+	}
+	if !okLookup || !okCmp {
+		return false
+	}
+	// (c) every edge out of the loop other than exhaustion returns false; exhaustion returns true
+	for b := range ml.body {
+		for _, s := range b.Succs {
+			if ml.body[s] {
+				continue
+			}
+			v, ok := retConst(b, s)
+			if !ok {
+				return false
+			}
+			if b == ml.header {
+				if !v {
+					return false
+				}
+			} else if v {
+				return false
+			}
+		}
+	}
+	return true
+}
